@@ -123,6 +123,15 @@ func (tr *gtTr) rootOf(lhs ast.Expr, env *venv) (stKey, bool, bool) {
 		case *ast.SliceExpr:
 			e = unparen(x.X)
 			continue
+		case *ast.StarExpr:
+			e = unparen(x.X)
+			continue
+		case *ast.SelectorExpr:
+			if _, isId := unparen(x.X).(*ast.Ident); !isId {
+				elem = true // a field of an element: s[i].f
+				e = unparen(x.X)
+				continue
+			}
 		}
 		break
 	}
@@ -335,7 +344,20 @@ func (tr *gtTr) setPath(lhs ast.Expr, v ex, env *venv) ex {
 			return tr.setPath(x.X, ex{binds: binds, code: o, typ: cur.typ}, env)
 		}
 		gtFail("assignment to an element of a %s is outside the subset", cur.typ.name)
-	case *ast.Ident, *ast.SelectorExpr:
+	case *ast.StarExpr:
+		return tr.setPath(x.X, v, env)
+	case *ast.SelectorExpr:
+		if _, isId := unparen(x.X).(*ast.Ident); !isId {
+			cur := tr.expr(x.X, env)
+			if cur.typ.kind != kStruct || !cur.typ.storable() {
+				gtFail("assignment to a field of a %s is outside the subset", cur.typ.name)
+			}
+			return tr.setPath(x.X, tr.withField(cur, x.Sel.Name, v), env)
+		}
+		if _, _, ok := tr.rootOf(x, env); ok {
+			return v
+		}
+	case *ast.Ident:
 		if _, _, ok := tr.rootOf(x, env); ok {
 			return v
 		}
